@@ -19,6 +19,9 @@ error = _re.error
 escape = _re.escape
 
 
+_ICASE = [False]
+
+
 def _char_test(items, negate=False):
     def test(c):
         r = False
@@ -44,6 +47,10 @@ def char_in(ch, items):
     """does character ch match the class described by items?  (forks when undecided)"""
     negate = bool(items) and items[0][0] is K.NEGATE
     test = _char_test(items, negate)
+    if _ICASE[0]:
+        # re.IGNORECASE (ASCII letters): a character matches when either of its cases does
+        t0 = _char_test(items, False)
+        test = (lambda c: (t0(c) or t0(c.swapcase())) != negate)
     if _isinstance(ch, str):
         return test(ch)
     yes = [a for a in ch.alpha if test(a)]
@@ -163,10 +170,12 @@ class Pattern:
     def match(self, s, *a):
         if _isinstance(s, str):
             return self.real.match(s, *a)
-        if self.flags & _re.IGNORECASE:
-            raise OutOfModel('IGNORECASE on symbolic string')
         chars = chars_of(s)
-        return _m(self.seq, 0, chars, 0, {}, lambda p, g: Match(chars, g, p))
+        _ICASE[0] = bool(self.flags & _re.IGNORECASE)
+        try:
+            return _m(self.seq, 0, chars, 0, {}, lambda p, g: Match(chars, g, p))
+        finally:
+            _ICASE[0] = False
 
     def fullmatch(self, s):
         if _isinstance(s, str):
